@@ -173,6 +173,10 @@ func writeStmt(b *strings.Builder, s Stmt) {
 	case Defer:
 		b.WriteString("defer ")
 		writeExpr(b, s.Call)
+	case Close:
+		b.WriteString("close(")
+		writeExpr(b, s.X)
+		b.WriteString(")")
 	case Block:
 		b.WriteString("if true ")
 		writeBlock(b, s.Body)
